@@ -167,7 +167,7 @@ def labels(c):
 
 
 # ------------------------------------------------------------------------------------------- indexing / iteration
-IDX_KINDS = {2: ["pointcoll", "linecoll", "quadriccoll", "dualquadriccoll", "circlecoll", "transformationcoll", "segmentcoll", "polygoncoll", "trianglecoll", "rectanglecoll", "pentagoncoll"],
+IDX_KINDS = {2: ["pointcoll", "linecoll", "quadriccoll", "normquadriccoll", "dualquadriccoll", "circlecoll", "transformationcoll", "segmentcoll", "polygoncoll", "trianglecoll", "rectanglecoll", "pentagoncoll"],
              3: ["pointcoll", "linecoll", "planecoll", "quadriccoll", "spherecoll", "transformationcoll", "segmentcoll", "polygoncoll", "trianglecoll", "rectanglecoll"]}
 
 
@@ -185,6 +185,10 @@ def build_elements(kind, d, vs, n):
     if base == "dualquadric":
         objs = [Z.build("dualquadric", d, vs[i % len(vs)])[0] for i in range(n)]
         return objs, Quadric, lambda arr: QuadricCollection(arr, is_dual=True)
+    if base == "normquadric":
+        # constructor flag normalize_matrix=True: every element keeps its own (projectively unchanged) matrix
+        objs = [Z.build("quadric", d, vs[i % len(vs)])[0] for i in range(n)]
+        return objs, Quadric, lambda arr: QuadricCollection(arr, normalize_matrix=True)
     if base == "circle":
         objs = [Z.build("circle", d, vs[i % len(vs)])[0] for i in range(n)]
         return objs, Quadric, QuadricCollection
